@@ -2,7 +2,7 @@
 """C18 case generator and three-way comparison (code vs extracted model vs extracted spec).
 
 usage: gen_type_cases.py <seed> <count> [--run] [--typedump PATH] [--driver PATH] [--keep DIR]
-                         [--max-report N] [--deviations PCT]
+                         [--max-report N] [--deviations PCT] [--mutants PCT]
 
 Without --run: prints one case per line on stdout
     <hex source text of T> TAB <tree> TAB <separator style>
@@ -25,6 +25,10 @@ With --run: runs
 
 --deviations PCT: percentage of cases allowed to contain a construct that is a known code/spec deviation
   (default 25); 0 generates only trees with code_ok = true.
+--mutants PCT: percentage of the random cases (after the systematic ones) replaced by a token-level mutant of a
+  generated type (token deleted / duplicated / swapped / replaced by a word the parser treats specially);
+  mutants carry no tree ("-") and are only used for check (1): malformed and out-of-fragment inputs must give
+  the same answer (text, ERR) in code and model unless the model answers OOF (default 15).
 """
 import os
 import subprocess
@@ -80,6 +84,7 @@ PLAIN_KNOWN = ["UInt8", "UInt16", "UInt32", "UInt64", "UInt128", "UInt256", "Int
 PLAIN_UNKNOWN = ["LineString", "MultiLineString", "Geometry", "BIGINT", "TINYINT", "IntervalDay", "MyType",
                  "Varchar", "TEXT", "_t1", "T2x"]
 ELEM_PLAIN = ["a", "b", "c", "id", "x1", "_f", "name", "value", "key", "ts", "n_1", "Index", "first", "k2", "V"]
+ELEM_QUOTED = ["a b", "x-y", "1st", "a.b", "sp ace d", "q?"]      # need backticks: not wf_ty, model-vs-code only
 ELEM_TYPELIKE = ["date", "time", "string", "Int8", "uuid", "point", "Array", "interval", "bool", "json"]
 
 PARENTS = ["Array", "Nullable", "LowCardinality", "Map", "Tuple", "TupleNamed", "Variant"]
@@ -139,6 +144,8 @@ class Gen:
 
     def plain_name(self, ctx_named):
         r = self.r
+        if ctx_named and self.dev and r.chance(1, 4):
+            return r.choice(PLAIN_UNKNOWN)
         if r.chance(1, 10) and (self.dev or not ctx_named):
             return r.choice(PLAIN_UNKNOWN)
         return r.choice(PLAIN_KNOWN)
@@ -154,6 +161,8 @@ class Gen:
 
     def elem_name(self, ty):
         r = self.r
+        if r.chance(1, 40):
+            return r.choice(ELEM_QUOTED)
         if self.dev and r.chance(1, 5):
             return r.choice(ELEM_TYPELIKE)
         if r.chance(1, 12):
@@ -339,7 +348,10 @@ def tokens_of(r, t, style, out):
         if a[0] == 't':
             tokens_of(r, a[1], style, out)
         elif a[0] == 'n':
-            out.append(('w', a[1].encode()))
+            nm = a[1].encode()
+            if not all(chr(c).isalnum() or c == 0x5F for c in nm) or nm[:1].isdigit():
+                nm = (b"`" + nm + b"`") if r.chance(2, 3) else (b'"' + nm + b'"')
+            out.append(('w', nm))
             tokens_of(r, a[2], style, out)
         elif a[0] == 'u':
             out.append(('w', str(a[1]).encode()))
@@ -395,9 +407,41 @@ def sep_for(r, style, prev, nxt):
     return b" "
 
 
-def render(r, t, style):
+MUT_WORDS = [b"UNSIGNED", b"signed", b"PRECISION", b"VARYING", b"LARGE", b"OBJECT", b"CHAR", b"CHARACTER",
+             b"INT", b"BIGINT", b"DOUBLE", b"NCHAR", b"BINARY", b"NATIONAL", b"COLLATE", b"SKIP", b"JSON",
+             b"Nested", b"Tuple", b"Array", b"NULL", b"INF", b"TIMESTAMP", b"DATE", b"ANY", b"ALL", b"AS", b"x"]
+MUT_PUNCT = [b"=", b"==", b"+", b"-", b".", b"::", b"(", b")", b",", b"*", b"[", b"]", b"'s'", b"1", b"0x1f",
+             b"1.5", b"1e3", b"18446744073709551616", b".5", b"?", b"{p:UInt8}"]
+
+
+def mutate(r, toks):
+    toks = list(toks)
+    n = 1 + r.below(2)
+    for _ in range(n):
+        k = r.below(6)
+        j = r.below(len(toks))
+        if k == 0 and len(toks) > 1:
+            del toks[j]
+        elif k == 1:
+            toks.insert(j, toks[j])
+        elif k == 2 and len(toks) > 1:
+            j = r.below(len(toks) - 1)
+            toks[j], toks[j + 1] = toks[j + 1], toks[j]
+        elif k == 3:
+            toks[j] = ('w', r.choice(MUT_WORDS))
+        elif k == 4:
+            toks.insert(j, ('w', r.choice(MUT_WORDS)))
+        else:
+            toks.insert(j, ('w', r.choice(MUT_PUNCT)))     # class w: always separated by a space
+    return toks
+
+
+def render(r, t, style, mutant=False):
     toks = []
     tokens_of(r, t, style, toks)
+    if mutant:
+        toks = mutate(r, toks)
+        return b" ".join(tk[1] for tk in toks)
     out = bytearray()
     # leading / trailing separators (never a bare line comment at the very end of the CAST form: it would swallow `)`)
     if style in ("spaces", "newlines", "mixed") and r.chance(1, 3):
@@ -461,7 +505,7 @@ def canon_py(t):
 ALL_PAIRS = [(p, c) for p in PARENTS for c in KINDS]
 
 
-def make_case(seed, i, dev_pct):
+def make_case(seed, i, dev_pct, mut_pct=0):
     r = case_rng(seed, i)
     style = SEP_STYLES[i % len(SEP_STYLES)]
     dev = r.below(100) < dev_pct
@@ -475,7 +519,9 @@ def make_case(seed, i, dev_pct):
             t = ('A', r.choice(["Array", "Nullable", "LowCardinality"]), [('t', t)])
     else:
         k = g.pick_kind(4)
-        t = g.build(k, 4, False)
+        t = g.build(k, 4 if not r.chance(1, 3) else 2, False)
+        if r.below(100) < mut_pct:
+            return None, "mutant", render(r, t, "canonical", mutant=True), []
     return t, style, render(r, t, style), g.pairs
 
 
@@ -539,7 +585,7 @@ def dec(h):
 def main(argv):
     args = [a for a in argv[1:]]
     opts = {"--typedump": "/verif/build/typedump", "--driver": "/verif/build/types_driver", "--keep": None,
-            "--max-report": "5", "--deviations": "25"}
+            "--max-report": "5", "--deviations": "25", "--mutants": "15"}
     run = False
     pos = []
     j = 0
@@ -559,6 +605,7 @@ def main(argv):
     seed = int(pos[0]) if pos[0] != "env" else int(os.environ.get("VERIF_SEED", "1"))
     count = int(pos[1])
     dev_pct = int(opts["--deviations"])
+    mut_pct = int(opts["--mutants"])
     maxrep = int(opts["--max-report"])
 
     cases = []
@@ -567,14 +614,16 @@ def main(argv):
     style_hist = {}
     argkinds = {}
     for i in range(count):
-        t, style, text, _ = make_case(seed, i, dev_pct)
+        t, style, text, _ = make_case(seed, i, dev_pct, mut_pct)
         cases.append((t, style, text))
+        style_hist[style] = style_hist.get(style, 0) + 1
+        if t is None:
+            continue
         ps = []
         real_pairs(t, ps)
         for p in ps:
             pair_count[p] = pair_count.get(p, 0) + 1
         depth_hist[depth_of(t)] = depth_hist.get(depth_of(t), 0) + 1
-        style_hist[style] = style_hist.get(style, 0) + 1
         count_args(t, argkinds)
 
     covered = [p for p in ALL_PAIRS if pair_count.get(p, 0) > 0]
@@ -590,7 +639,7 @@ def main(argv):
     if not run:
         out = sys.stdout
         for t, style, text in cases:
-            out.write("%s\t%s\t%s\n" % (hx(text), tree_str(t), style))
+            out.write("%s\t%s\t%s\n" % (hx(text), tree_str(t) if t is not None else "-", style))
         sys.stderr.write(cov + "\n")
         return 0
 
@@ -610,7 +659,7 @@ def main(argv):
     with open(din, "w") as f:
         for line, (t, style, text) in zip(hl, cases):
             h, a, b, toks = line.split("\t")
-            f.write("%s\t%s\t%s\n" % (h, toks, tree_str(t)))
+            f.write("%s\t%s\t%s\n" % (h, toks, tree_str(t) if t is not None else "-"))
     dout = subprocess.run([opts["--driver"]], stdin=open(din), capture_output=True, text=True, check=True).stdout
     dl = dout.splitlines()
     if len(dl) != len(cases):
@@ -621,20 +670,32 @@ def main(argv):
         open(os.path.join(tmp, "driver.out"), "w").write(dout)
 
     n_tok_bad = n_model_bad = n_pos_bad = n_thm_bad = n_cls_bad = 0
-    n_oof = n_wf = n_ok = n_thm = 0
+    n_oof = n_wf = n_ok = n_thm = n_mut = n_mut_oof = 0
+    mut_same = {}
     oof_reasons = {}
     fclass = {}          # class -> [cases, cases where code != shown]
     fexamples = {}
     reports = []
 
     def report(kind, i, msg):
-        if sum(1 for k, _ in reports if k == kind) < maxrep:
-            reports.append((kind, "%s case=%d seed=%d text=%r %s" % (kind, i, seed, cases[i][2], msg)))
+        reports.append((kind, len(cases[i][2]), "%s case=%d seed=%d text=%r %s" % (kind, i, seed, cases[i][2], msg)))
 
     for i, (hline, dline, (t, style, text)) in enumerate(zip(hl, dl, cases)):
         h, ca, cb, _ = hline.split("\t")
         h2, ma, mb, spec = dline.split("\t")
         assert h == h2
+        if t is None:
+            n_mut += 1
+            for (c, m, posn) in ((ca, ma, "CAST"), (cb, mb, "::")):
+                if m.startswith("OOF:"):
+                    n_mut_oof += 1
+                    oof_reasons[m] = oof_reasons.get(m, 0) + 1
+                elif m != c:
+                    n_model_bad += 1
+                    report("MODEL", i, "%s code=%r model=%r" % (posn, dec(c), dec(m)))
+                else:
+                    mut_same[("ERR" if m == "ERR" else "text")] = mut_same.get(("ERR" if m == "ERR" else "text"), 0) + 1
+            continue
         f = dict(x.split("=") for x in spec.split(";")[1:])
         shown = spec.split(";")[0]
         wf, ok, toks = f["wf"] == "1", f["ok"] == "1", f["toks"] == "1"
@@ -673,23 +734,27 @@ def main(argv):
             e = fclass.setdefault(key, [0, 0])
             e[0] += 1
             e[1] += differs
-            if differs and len(key) == 2 and len(fexamples.setdefault(key, [])) < 3:
-                fexamples[key].append("T=%s expected=%s actual(CAST)=%s actual(::)=%s" % (
-                    canon_py(t), dec(shown), dec(ca), dec(cb)))
+            if differs and len(key) == 2:
+                fexamples.setdefault(key, []).append((len(text), "T=%s expected=%s actual(CAST)=%s actual(::)=%s" % (
+                    canon_py(t), dec(shown), dec(ca), dec(cb))))
 
     print(cov)
-    print("cases %d: wf %d, wf&&code_ok %d (theorem instances checked against the code: %d)" % (
-        len(cases), n_wf, n_ok, n_thm))
-    print("model OOF answers %d %s" % (n_oof, oof_reasons))
+    print("tree cases %d: wf %d, wf&&code_ok %d (theorem instances checked against the code: %d)" % (
+        len(cases) - n_mut, n_wf, n_ok, n_thm))
+    print("mutants (text only) %d: model = code on %s answers, model OOF on %d answers" % (n_mut, mut_same, n_mut_oof))
+    print("model OOF answers on trees %d; all OOF reasons %s" % (n_oof, oof_reasons))
     print("known deviation classes (cases, of which code != spec): %s" % dict(sorted(fclass.items())))
     for k in sorted(fexamples):
-        for e in fexamples[k]:
+        for _, e in sorted(fexamples[k])[:2]:
             print("  %s %s" % (k, e))
     bad = n_tok_bad + n_model_bad + n_pos_bad + n_thm_bad + n_cls_bad
     print("disagreements: tokens %d, model-vs-code %d, CAST-vs-:: %d, spec-vs-code on code_ok trees %d, classifier %d" % (
         n_tok_bad, n_model_bad, n_pos_bad, n_thm_bad, n_cls_bad))
-    for _, m in reports:
-        print(m)
+    shown_kinds = {}
+    for kind, _, m in sorted(reports, key=lambda x: (x[0], x[1])):
+        shown_kinds[kind] = shown_kinds.get(kind, 0) + 1
+        if shown_kinds[kind] <= maxrep:
+            print(m)
     if missing:
         print("FAIL coverage: missing pairs %s" % missing)
         bad += 1
